@@ -251,6 +251,18 @@ func (t *Transport) isSubscribed(ns string) bool {
 	return u != nil && u.active
 }
 
+// bagEmpty: nothing but replies is on its way outside the per-resource FIFOs.
+func (t *Transport) bagEmpty() bool {
+	t.s.mu.Lock()
+	defer t.s.mu.Unlock()
+	for _, m := range t.bag {
+		if m.Kind != "reply" {
+			return false
+		}
+	}
+	return true
+}
+
 // subscribedSince: ns was subscribed at some moment between seq and now.
 func (t *Transport) subscribedSince(ns string, seq uint64) bool {
 	t.s.mu.Lock()
